@@ -3,6 +3,21 @@
 import json, sys
 
 CHECKS = {
+ "C06": dict(
+   text="Every sequence of up to 3 (quick) / 5 (thorough) builder calls over {tolerance, min step, max step, start, end} is executed on each of the seven real builders with UNCONSTRAINED symbolic argument values and compared, branch by branch, with a reference model of the builder contract: z3 proves that a call is rejected exactly when the model says so (dedicated error variant), that min <= max after any order of setters (observed through the first trial step), that complete configurations build and incomplete ones report MissingParameters; static/dynamic misuse is checked for all builders; a derivative function failing at call k (k = 0..15 / 0..47) yields exactly one Err item carrying that error, no further derivative calls, nothing from three more next() calls, and collect_vec returns it.",
+   note="Small-scope exhaustive over call sequences; argument values symbolic in [-5,5]; the user-error part runs on a seeded concrete linear problem with symbolic tolerance (concrete for the Runge-Kutta kinds).",
+   tech="symbolic execution of the real builders/iterator + SMT-decided branch equivalence with a reference model; fault position enumeration",
+   ref="6/C06"),
+ "C07": dict(
+   text="Symbolic execution of bisection, brent and itp with the function an arbitrary (memoised, bounded) function whose every value is a symbolic variable: for brackets of width <= 2^k tol (bisection: bracket and tolerance symbolic; Brent: bracket in either order; ITP: seeded concrete bracket/parameters) every feasible path is explored and z3 proves that every abscissa handed to the function lies in the closed bracket, that an Ok result lies in the bracket with a recorded sign change (or, Brent, a value below tolerance) within the tolerance (relative to max(1,|x|) for bisection), that the evaluation count is bounded, and that same-sign ends, negative tolerances and illegal ITP parameters give Err.",
+   note="Real arithmetic except where constants make rounding visible (ITP's projection radius is concrete); exact zeros at the bracket ends excluded; wider brackets outside; replay uses the continuous piecewise-linear function through the recorded samples.",
+   tech="symbolic execution with an uninterpreted (tape) function + SMT (z3 nlsat) over all function values; DFS over sign patterns",
+   ref="6/C07"),
+ "C09": dict(
+   text="On the classes where each routine's stopping rule is provably reliable -- polynomial integrands with all coefficients symbolic, degree <= 3 for the two-consecutive-agreement Gaussian integrators (Legendre on seeded intervals, Laguerre, Hermite, both Chebyshev; real and complex), degree <= 5 for adaptive Simpson, degree <= 2n-1 for Romberg with n rows, degree <= 2 for tanh-sinh -- every path of the real integrator is explored with a symbolic tolerance and z3 proves |result - exact integral| <= K tol on every Ok path, that Err is infeasible where the class guarantees success, a Simpson evaluation bound, and that reversed/empty intervals and negative tolerances give Err (symbolic interval).",
+   note="Real arithmetic; exact integrals from closed forms; transcendental integrands and degrees above the class are outside; tanh-sinh only for tol >= 1e-8.",
+   tech="symbolic execution of the real integrators + SMT (z3, mostly QF_LRA) over all polynomial coefficients and the tolerance",
+   ref="6/C09"),
  "C10": dict(
    text="Every row of the five Gaussian tables is observed through the real integrators: a stateful integrand steers the two-consecutive-agreement exit to the chosen row so that the public function returns Q_row[1 + eps*p]; with all 2n polynomial coefficients symbolic z3 (linear arithmetic over the exact affine form) proves degree-(2n-1) exactness against closed-form moments, that the weights sum to the zeroth moment, strict positivity of every weight (strict monotonicity in arbitrary integrand values), and the run records n distinct nodes inside the domain. The one-point rules are decided through the stopping rule with a symbolic tolerance. tanh-sinh: levels 0..2 against the double-exponential formula.",
    note="Real arithmetic with the tables' exact doubles; moments from closed forms in f64 (1e-15); tolerance 1e-10 x (2n) on normalised monomials; tanh-sinh levels 3..6 are not observable through the public API and are outside the claim.",
